@@ -171,6 +171,23 @@ func c19Run(c *Ctx) {
 					})
 				}
 				in.anchor, in.live = op.RetT, op.Err == nil
+				if in.live && kind != "once" && c.W.Draw(6) == 5 {
+					// the same call again while the reference is live: it must be rejected, and the
+					// rejection must leave the live schedule and its reference untouched (everything
+					// that follows - deliveries, pause, resume, cancel - is judged as if it had not
+					// been made)
+					c.Probe("duplicate-reference-call")
+					dup := &c19Op{Thread: t, API: op.API, Ref: in.Ref, Inst: -2}
+					st.call(dup, func() error {
+						if kind == "cron" {
+							return s.Sys.ScheduleWithCron(s.Ctx, msg, pids[ti], "* * * * * *", actor.WithReference(in.Ref))
+						}
+						return s.Sys.Schedule(s.Ctx, msg, pids[ti], in.D, actor.WithReference(in.Ref))
+					})
+					if dup.Err == nil {
+						c.Fail("duplicate-reference-accepted", op.API, "%s with reference %q returned nil while a schedule with that reference was live", op.API, in.Ref)
+					}
+				}
 				return in
 			}
 			control := func(api string, in *c19Inst, ref string) *c19Op {
